@@ -439,8 +439,38 @@ def _accumulate(frame, args, kwargs):
     return I.Lazy(gen())
 
 
+def _memorize(frame, args, kwargs):
+    # "Returns an iterator over collection and memorizes already iterated values": buffering changes
+    # nothing about which elements are computed, and when
+    coll = _coll(args, 1)
+    if isinstance(coll, list):
+        return coll
+    return I.Lazy(x for x in coll)
+
+
+def _default_if_empty(frame, args, kwargs):
+    # whether the collection is empty is known after asking for its first element (at the call);
+    # the remaining elements are computed when pulled
+    coll, default = _coll(args, 2), args[1]
+    if isinstance(coll, list):
+        return coll if coll else default
+    it = iter(coll)
+    for head in it:
+        break
+    else:
+        return default
+
+    def gen():
+        yield head
+        for x in it:
+            yield x
+    return I.Lazy(gen())
+
+
 I.LIB.update({
     'tick': ('f', (), _tick),
+    'memorize': ('m', (), _memorize),
+    'defaultIfEmpty': ('m', (), _default_if_empty),
     'selectMany': ('m', (1,), _select_many),
     'takeWhile': ('m', (1,), _take_while),
     'skipWhile': ('m', (1,), _skip_while),
